@@ -1931,7 +1931,10 @@ func (data *Data) SetDefaultRetentionPolicy(database, name string) error {
 	if _, err = di.GetRetentionPolicy(name); err != nil {
 		return err
 	}
-	di.DefaultRetentionPolicy = name
+	// the empty name resolved to the current default: keep it, do not clear the reference
+	if name != "" {
+		di.DefaultRetentionPolicy = name
+	}
 
 	return nil
 }
